@@ -23,7 +23,9 @@ FacetValues == [
     sid    |-> {"ok", "bad", "long"},                  \* one bit wrong; the right identifier followed by one more octet
     \* the embedded certificate: signed by another key, outside its validity, wrong AKI, a CA certificate (cA = TRUE), or a
     \* subject key identifier that is not the hash of its key (the signer identifier then names that wrong identifier)
-    ee     |-> {"ok", "wrongissuer", "expired", "notyet", "akibad", "isca", "skibad"},
+    \* "resbad": its resource extension lists, AFTER a well-formed block that covers the object, an element that is not a range at
+    \* all (bounds the wrong way round) - a certificate the decoder must refuse whole, not one to read up to the damage
+    ee     |-> {"ok", "wrongissuer", "expired", "notyet", "akibad", "isca", "skibad", "resbad"},
     ctattr |-> {"ok", "mismatch"},                   \* content-type attribute vs eContentType
     \* ROA: a prefix disjoint from the EE resources / less specific than a resource block / straddling the end of a range /
     \*      of a family the certificate has no resources for; ASPA: customer outside, inherited, IP resources present
@@ -37,6 +39,8 @@ Facets == DOMAIN FacetValues
 Fams == {"v4", "v6", "v4+", "v6+"}
 \* ROA: the overclaim policy of the EE certificate.  "trim" (RFC 8360): the certificate claims a whole /8 (/32) of which the issuer
 \* holds two separate pieces (one); its validated resources are those pieces, and prefixes lie in the first AND in a later piece.
+\* ASPA under "trim": the certificate claims one span of AS numbers of which the issuer holds the first and, after a gap, the rest;
+\* the conforming customer lies in the later piece, the deviating one in the gap (inside the claim, outside what is validated).
 Pols == {"refuse", "trim"}
 \* which coverage deviations exist for which kind of object
 CoverFor(k) == CASE k = "roa"  -> {"ok", "outside", "wider", "straddle", "nores"}
@@ -56,7 +60,7 @@ VARIABLES obj, devs
 vars == <<obj, devs>>
 Init == \E k \in Kinds, s \in Sizes, fm \in Fams, pl \in Pols :
           /\ (k # "gen" => s = "small")            \* ROA / ASPA / manifest attribute sets have a fixed size
-          /\ (k # "roa" => fm = "v4" /\ pl = "refuse")
+          /\ (k # "roa" => fm = "v4") /\ (k \notin {"roa", "aspa"} => pl = "refuse")
           /\ obj = [kind |-> k, size |-> s, fam |-> fm, pol |-> pl, f |-> Conforming] /\ devs = 0
 Deviate == /\ devs < MaxDev
            /\ \E fc \in Facets : \E v \in FacetValues[fc] :
@@ -66,6 +70,9 @@ Deviate == /\ devs < MaxDev
                 /\ (fc = "cover" /\ v = "nores" => obj.fam \in {"v4", "v6"})
                 \* (the range that ends inside a prefix is realised with explicit blocks: no-overclaim certificates only)
                 /\ (fc = "cover" /\ v = "straddle" => obj.pol = "refuse")
+                \* (the other ASPA coverage deviations are shapes of the certificate's extensions, realised without a claim to trim)
+                /\ (fc = "cover" /\ obj.kind = "aspa" /\ obj.pol = "trim" => v = "outside")
+                /\ (fc = "ee" /\ v = "resbad" => obj.kind \in {"roa", "aspa"} /\ obj.fam \in {"v4", "v4+"} /\ obj.pol = "refuse")
                 /\ (fc = "crl" => obj.kind \in {"roa", "aspa", "gen"})   \* the process() entry points take a CRL callback
                 /\ obj' = [obj EXCEPT !.f[fc] = v]
            /\ devs' = devs + 1
